@@ -2,5 +2,7 @@ SPECIFICATION Spec
 CONSTANTS
   Vals = {1, 4, 30, 200, 1000}
   MaxOps = 4
+  EVals = {}
+  MaxEl = 0
 ACTION_CONSTRAINT Emit
 CHECK_DEADLOCK FALSE
